@@ -117,6 +117,9 @@ def extra_quick():
             [U('lognormal_nc', 1, 2), U('gaussian')],
             [U('gaussian', 2, 2)], [U('pooled', 1, 2), U('truncgauss')],
             # a multi-dimensional regular sub-model in front of further ones
+            # covariates acting on a selection of a two-dimensional model
+            [U('gaussian', 2, 1, sel=[[0, 1], [1, 0]])],
+            [U('lognormal_nc', 2, 2, sel=[[1, 1], [0, 1]]), U('pooled')],
             [U('gaussian', 2), U('lognormal')],
             [U('lognormal_nc', 2), U('pooled'), U('gaussian')]]
 
